@@ -387,7 +387,9 @@ class Interp:
                 else:
                     raise Unsupported("deref of %r in %s" % (type(v).__name__, fr.fn.name))
             elif k == "field":
-                if isinstance(v, Agg):
+                if isinstance(v, Box) and p[1] == 0:
+                    cont, key = [v], 0       # Box.0 (the Unique pointer) is the box itself in this model; BoxDerefTransmute passes it on
+                elif isinstance(v, Agg):
                     if p[1] >= len(v.fields):
                         raise Unsupported("field %d of %r" % (p[1], v))
                     cont, key = v.fields, p[1]
@@ -836,6 +838,14 @@ class Interp:
                         self.write(fr, s[1], v)
                         nxt = s[4]
                     elif k == "drop":
+                        try:
+                            dv = self.read(fr, s[1])
+                        except Unsupported:
+                            dv = None
+                        if isinstance(dv, Agg) and dv.kind in ("adt:RefMut", "adt:CellRef") and len(dv.fields) > 1 and dv.fields[1] is not None:
+                            cell = dv.fields[1]
+                            cell.fields[1] = 0 if dv.kind == "adt:RefMut" else max(0, cell.fields[1] - 1)
+                            dv.fields[1] = None
                         nxt = s[2]
                     elif k == "assert":
                         c = self.operand(fr, s[1])
